@@ -554,6 +554,33 @@ func (w *World) Get(o *Obj, instance string) ReadResult {
 	return ReadResult{Found: true, Data: data}
 }
 
+// GetLimited reads with a maximum size. If the object is larger the
+// consumer gets INVALID_ARGUMENT (caused by the harness itself); the
+// buffer must nevertheless have been released (checked by the leak
+// oracles at quiescence).
+func (w *World) GetLimited(o *Obj, instance string, max int, asProto bool) {
+	failsBefore := w.St.Alloc.NewBlockFailures
+	b := w.St.BA.Get(w.Ctx, o.Digest(instance))
+	var data []byte
+	var err error
+	if asProto {
+		_, err = b.ToProto(&remoteexecution.ActionResult{}, max)
+	} else {
+		data, err = b.ToByteSlice(max)
+	}
+	w.logf("get(max=%d,proto=%v) obj=%d inst=%q -> %d bytes, %v", max, asProto, o.ID, instance, len(data), err)
+	if err == nil {
+		if !asProto {
+			w.expectBytes("Get", o, instance, data)
+		}
+		return
+	}
+	if status.Code(err) == codes.InvalidArgument {
+		return // larger than the limit (or, for ToProto on CAS data, not a message)
+	}
+	w.classifyReadErr("Get", o, instance, err, failsBefore)
+}
+
 // OpenHold obtains a buffer and keeps it unconsumed.
 func (w *World) OpenHold(o *Obj, instance string, asReader bool, chunk int) *Hold {
 	fails := w.St.Alloc.NewBlockFailures
